@@ -34,7 +34,8 @@ TraceJoin ==
           /\ failed' = FALSE /\ UNCHANGED <<vc, ac, hist, cons, rtp, rm, act, fragMs>>
      ELSE Reject({"join"})
 \* SETUP / PLAY of the second RTSP subscriber (what it is handed is reported with the messages)
-TracePlay == /\ IsEvent("Play") /\ UNCHANGED <<vc, ac, hist, cons, rtp, rm, ep, act, fragMs, failed>>
+TracePlay == /\ IsEvent("Play") /\ ep' = [ep EXCEPT !.played = TRUE, !.lateplay = @ \/ (ep.stay /\ ~ep.played)]
+             /\ UNCHANGED <<vc, ac, hist, cons, rtp, rm, act, fragMs, failed>>
 
 ConsAfter(h, o) == [c \in TsAll |-> IF c \in DOMAIN o THEN AcceptOut(h, cons[c], o[c]) ELSE cons[c]]
 RgAfter(h, e, o) == IF o.panic = "" THEN AcceptRtp(h, EpSdps(h, e, rtp["rg"], o.sdp, 1), o.frames, 1)
@@ -43,7 +44,8 @@ RgAfter(h, e, o) == IF o.panic = "" THEN AcceptRtp(h, EpSdps(h, e, rtp["rg"], o.
 RhAfter(h, e, x) == IF "rh" \notin DOMAIN x THEN rtp["rh"]
                     ELSE LET o == x["rh"] IN
                          IF o.panic # "" THEN [rtp["rh"] EXCEPT !.ok = FALSE]
-                         ELSE IF e.stay THEN (IF o.sdp # <<>> THEN [rtp["rh"] EXCEPT !.ok = FALSE] ELSE AcceptStay(h, rtp["rh"], o.frames, 1))
+                         ELSE IF e.stay THEN (IF o.sdp # <<>> \/ (e.lateplay /\ ~LatePlayStart(h, rtp["rh"], o.frames)) THEN [rtp["rh"] EXCEPT !.ok = FALSE]
+                                              ELSE AcceptStay(h, rtp["rh"], o.frames, 1))
                          ELSE AcceptRtp(h, EpSdps(h, e, rtp["rh"], o.sdp, 1), o.frames, 1)
 
 TracePub ==
